@@ -34,7 +34,7 @@ def family(tier, seed):
     r = lambda: rnd.randrange(2, R_JUBJUB)
     a, a2, by = r(), r(), rnd.randrange(1, 256)
     quick = tier == "quick"
-    tmo = 60 if quick else 600
+    tmo = 30 if quick else 600
     E = []
     consts = [2, 3, 5, 8] if quick else [2, 3, 4, 5, 6, 7, 8, 11, 13, 0xa5]
     for c in consts:
